@@ -14,7 +14,7 @@
    None (VNone) is allowed in int/float columns: dump writes the empty text for it, parse_int /
    parse_decimal return None for the empty text. *)
 From Coq Require Import List Arith ZArith NArith Bool Lia.
-From RxVerif Require Import Framing.Line Container.Csv Container.CsvProofs.
+From RxVerif Require Import Framing.Line Container.Csv Container.CsvProofs Container.IntText Container.IntTextProofs.
 Import ListNotations.
 
 (* un-escaping inverts escaping, for every string *)
@@ -100,6 +100,50 @@ Theorem C18_file_roundtrip_64k : forall (F : Type) (str_int : Z -> list Z) (int_
     (concat (dump_lines F str_int str_float [p] esc [newline] names rows)) = (rows, true).
 Proof. exact file_roundtrip_64k. Qed.
 Print Assumptions C18_file_roundtrip_64k.
+
+(* ---------------------------------------------------------------------------------------------
+   the INT half of the number layer made concrete: py_str_int = CPython str(n) (decimal digits, '-' for negatives),
+   py_int_of = the fragment of int(text) the loader needs (optional sign, ASCII digits).  The correspondence check
+   compares both with CPython on every int and every int text of every case (C18Corr.int_layer_ok).  With them the
+   round trips keep only the FLOAT hypotheses; the separator character must not be '-' or a digit.
+   --------------------------------------------------------------------------------------------- *)
+Theorem C18_int_text_roundtrip : forall n : Z, py_int_of (py_str_int n) = Some n.
+Proof. exact py_int_roundtrip. Qed.
+Print Assumptions C18_int_text_roundtrip.
+Theorem C18_int_text_printed : forall (p n : Z), p <> 45%Z -> ~ (48 <= p <= 57)%Z -> printed_ok p (py_str_int n).
+Proof. exact py_int_printed. Qed.
+Print Assumptions C18_int_text_printed.
+Theorem C18_line_roundtrip_int_concrete : forall (F : Type) (str_float : F -> list Z) (float_of : list Z -> option F)
+    (p esc : Z),
+  p <> quote -> p <> esc -> esc <> quote ->
+  p <> 45%Z -> ~ (48 <= p <= 57)%Z ->
+  (forall x, float_of (str_float x) = Some x) ->
+  (forall x, printed_ok p (str_float x)) ->
+  (forall b, ~ In p (str_bool b)) ->
+  forall (types : list ty) (row : list (value F)), Forall2 field_ok types row -> row <> [] ->
+  parse_line F py_int_of float_of [p] esc types (dump_line F py_str_int str_float [p] esc row) = Some row.
+Proof. exact csv_line_int_concrete. Qed.
+Print Assumptions C18_line_roundtrip_int_concrete.
+Theorem C18_file_roundtrip_int_concrete : forall (F : Type) (str_float : F -> list Z) (float_of : list Z -> option F)
+    (p esc : Z),
+  p <> quote -> p <> esc -> esc <> quote ->
+  p <> 45%Z -> ~ (48 <= p <= 57)%Z ->
+  (forall x, float_of (str_float x) = Some x) ->
+  (forall x, printed_ok p (str_float x)) ->
+  (forall b, ~ In p (str_bool b)) ->
+  p <> newline -> esc <> newline ->
+  (forall x, text_no_nl (str_float x)) ->
+  forall (types : list ty) (names : list (list Z)) (rows : list (list (value F))) (chunks : list (list Z)),
+  Forall text_no_nl names ->
+  Forall (fun row => Forall2 field_ok types row /\ row <> [] /\ Forall value_no_nl row) rows ->
+  concat chunks = concat (dump_lines F py_str_int str_float [p] esc [newline] names rows) ->
+  load_chunks F py_int_of float_of [p] esc types chunks = (rows, true).
+Proof. exact csv_file_int_concrete. Qed.
+Print Assumptions C18_file_roundtrip_int_concrete.
+Example C18_int_text_examples :
+  py_str_int 0 = [48]%Z /\ py_str_int (-1234567890) = [45;49;50;51;52;53;54;55;56;57;48]%Z
+  /\ py_int_of [43;55]%Z = Some 7%Z /\ py_int_of [48;48;55]%Z = Some 7%Z /\ py_int_of [45]%Z = None /\ py_int_of [] = None.
+Proof. vm_compute. repeat split; reflexivity. Qed.
 
 (* ---------------------------------------------------------------------------------------------
    non-vacuity
